@@ -104,6 +104,9 @@ func (c *Client) validateVirtualChannelSettlementProposal(
 	if prop.Final.Params.ID() != prop.Final.State.ID {
 		return errors.New("invalid parameters")
 	}
+	if len(prop.Final.Sigs) != len(prop.Final.Params.Parts) {
+		return errors.New("invalid number of signatures")
+	}
 
 	// Validate signatures.
 	for i, sig := range prop.Final.Sigs {
@@ -138,6 +141,10 @@ func (c *Client) validateVirtualChannelSettlementProposal(
 	_, containedAfter := prop.State.SubAlloc(prop.Final.Params.ID())
 	if containedAfter {
 		return errors.New("virtual channel must not be de-allocated after update")
+	}
+
+	if prop.Final.State.NumParts() != len(subAlloc.IndexMap) {
+		return errors.New("invalid number of balances")
 	}
 
 	// Assert correct balances
